@@ -13,6 +13,8 @@ import (
 
 func TestMain(m *testing.M) {
 	verifrt.StrictSpawn = true
+	verifrt.TripDebug = os.Getenv("VERIF_TRIPDEBUG") != ""
+	verifrt.ParkRaceTest = os.Getenv("VERIF_PARKRACE") != ""
 	verifh.Main(m, "B")
 }
 
